@@ -84,6 +84,7 @@ struct World {
   std::map<int, vector<uint8_t> > given;  // id -> data of every response the mock gave for it
   vector<int> accepted_done;      // ids of non-rejected completions in order
   vector<string> trace;
+  vector<string> comps;           // property level: every completion (id:kind:status:type:data) in order
   unsigned conc, ps, dup, bad, rj, ddup;
   int cur_run;
   std::map<int, bool> ask_full, run_full, run_or;   // discovery: did -> asked full; run -> flag used / OR of asks served
@@ -173,13 +174,13 @@ static void OnComplete(ReqCtx *ctx, RDMReply *reply) {
   const vector<Op> *cb = ctx->cb;
   bool in_own_submit = std::find(W->in_submit.begin(), W->in_submit.end(), id) != W->in_submit.end();
   int kind = 0;
-  if (W->destroying) {
-    kind = 2;
-  } else if (in_own_submit && !W->dispatched.count(id) &&
-             reply->StatusCode() == RDM_FAILED_TO_SEND && reply->Response() == NULL) {
-    kind = 1;
+  if (in_own_submit && !W->dispatched.count(id) &&
+      reply->StatusCode() == RDM_FAILED_TO_SEND && reply->Response() == NULL) {
+    kind = 1;     // rejected inside its own SendRDMRequest call
+  } else if (W->destroying) {
+    kind = 2;     // failed by the destructor
   }
-  if ((kind == 1) != (ctx->expect_reject && !W->destroying)) W->rj++;
+  if ((kind == 1) != ctx->expect_reject) W->rj++;
   delete ctx;
   if (W->completions[id]++ > 0) W->dup++; else if (kind != 1) W->open--;
   if (kind != 1) W->accepted_done.push_back(id);
@@ -197,9 +198,16 @@ static void OnComplete(ReqCtx *ctx, RDMReply *reply) {
   } else {
     o << "n";
   }
+  {
+    std::ostringstream c;
+    c << id << ":" << kind << ":" << static_cast<int>(reply->StatusCode()) << ":";
+    if (rs) c << static_cast<int>(rs->ResponseType()) << ":" << rle(rs->ParamData(), rs->ParamDataSize());
+    else c << "n";
+    W->comps.push_back(c.str());
+  }
   o << ":f" << reply->Frames().size();
   W->trace.push_back(o.str());
-  if (!W->destroying) exec_ops(*cb);
+  exec_ops(*cb);   // completion callbacks are live, also when run by the destructor
 }
 
 static void OnDisc(DiscCtx *ctx, const UIDSet &uids) {
@@ -209,7 +217,7 @@ static void OnDisc(DiscCtx *ctx, const UIDSet &uids) {
   W->trace.push_back("K" + vh::str(did) + "@" + vh::str(W->cur_run));
   if (W->disc_done[did]++ > 0) W->ddup++;
   W->run_or[W->cur_run] = W->run_or[W->cur_run] || W->ask_full[did];
-  if (!W->destroying) exec_ops(*cb);
+  exec_ops(*cb);
 }
 
 static void exec_op(const Op &o) {
@@ -234,7 +242,7 @@ static void exec_op(const Op &o) {
       break;
     }
     case 'F': case 'I': {
-      if (!W->discov) break;
+      if (!W->discov || W->destroying) break;   // the derived part of a dying object is gone
       DiscCtx *ctx = new DiscCtx;
       ctx->did = W->next_did++; ctx->cb = &o.cb;
       W->ask_full[ctx->did] = (o.kind == 'F');
@@ -244,8 +252,9 @@ static void exec_op(const Op &o) {
         W->dctl->RunIncrementalDiscovery(ola::NewSingleCallback(&OnDisc, ctx));
       break;
     }
-    case 'D': W->mock->Deliver(o.r); break;
-    case 'E': W->mock->DeliverDisc(); break;
+    // the underlying controller does not answer a controller that is being destroyed
+    case 'D': if (!W->destroying) W->mock->Deliver(o.r); break;
+    case 'E': if (!W->destroying) W->mock->DeliverDisc(); break;
   }
 }
 static void exec_ops(const vector<Op> &ops) {
@@ -319,7 +328,8 @@ static string handle(const string &p) {
   std::ostringstream o;
   o << "t=" << join(traces, "/", "") << ";i=" << join(ints, "/", "") << ";conc=" << w.conc
     << ";ps=" << w.ps << ";dup=" << w.dup << ";ooo=" << (sorted ? 0 : 1) << ";bad=" << w.bad
-    << ";lost=" << lost << ";rj=" << w.rj << ";dv=" << dv;
+    << ";lost=" << lost << ";rj=" << w.rj << ";dv=" << dv
+    << ";comp=" << join(w.comps, ",", ".");
   W = NULL;
   return o.str();
 }
